@@ -189,6 +189,7 @@ SOURCE_TIE = {
     'C19': ['minrange2minmax', 'shift_and_scale', 'minmax_scale'],
     'C04': ['calc_base_height'],
     'C06': ['_get_min_sep_for_height'],
+    'C08': ['best_gmm'],
     'C17': ['significant_cloud'],
     'C18': ['okta2code', 'height2code', 'perc2okta'],
 }
